@@ -472,6 +472,7 @@ func (r *runner) abandon() {
 	}
 	serf.VerifFS.After = nil
 	serf.VerifFS.SetFail(0)
+	serf.VerifFS.SetFailKind("")
 	close(r.shut)
 	r.snap.Wait()
 	serf.VerifLoopForget(r.snap)
@@ -582,6 +583,9 @@ func (r *runner) input(st h.Step, crashAt int, crashSel string) (crashed bool, k
 	if f := st.Int("fail"); f > 0 {
 		serf.VerifFS.SetFail(before + f)
 	}
+	if fo := st.Str("failop"); fo != "" { // fault window: every operation of that kind fails during this input
+		serf.VerifFS.SetFailKind(fo[:strings.Index(fo, ":")+1] + map[string]string{"cur": "snap", "tmp": "snap.compact"}[fo[strings.Index(fo, ":")+1:]])
+	}
 	r.buffer = crashAt >= 0
 	r.lines = nil
 	r.tr.emit(st, 0)
@@ -609,6 +613,7 @@ func (r *runner) input(st h.Step, crashAt int, crashSel string) (crashed bool, k
 		r.snap.Wait()
 	}
 	serf.VerifFS.SetFail(0)
+	serf.VerifFS.SetFailKind("")
 	after := serf.VerifFS.Ops()
 	if crashAt >= 0 && after > before {
 		k = crashAt
